@@ -759,6 +759,13 @@ def fn_roundtrip(case, ctx):
             return
         if not ctx.check(os.path.isfile(path), "save:no-file", "save returned without writing a file"):
             return
+        # saving must leave the saved mesh as it was (else 'lossless' fails on the source side)
+        try:
+            s1 = snapshot(m)
+        except ValueError as e:
+            s1 = {"malformed": str(e)}
+        ctx.check(s1 == s0 and attr_table(m, case) == orig_attrs, "save:source-mesh-changed",
+                  f"after save(ignore_elements={ignore}) the mesh that was saved holds {short(s1, 300)}, before {short(s0, 300)}")
         data = open(path, "rb").read()
 
         # ---------------- oracle 2: the independent reader
